@@ -96,7 +96,9 @@ func classesC06(c *Case, exp *hx.Expect) (bool, []string) {
 func TestC06(t *testing.T) {
 	run := hx.NewRun("C06")
 	defer run.Flush()
-	check := func(c *Case) ([]hx.Discrepancy, *hx.Expect, map[string]interface{}, *World) { return checkFull(c, "C06") }
+	check := func(c *Case) ([]hx.Discrepancy, *hx.Expect, map[string]interface{}, *World) {
+		return checkFull(c, "C06")
+	}
 	if f := hx.Replaying(); f != "" {
 		runPropWith(t, "C06", nil, check, classesC06, run)
 		return
